@@ -7,7 +7,7 @@ from .refint import Ref
 from . import progen
 
 
-def gen_steps(prog, wl, fl, nsteps, *, p_reset=0.1, p_coincide=0.3, ctl_bias=0.5, allow_reset=True):
+def gen_steps(prog, wl, fl, nsteps, *, p_reset=0.1, p_coincide=0.3, ctl_bias=0.5, allow_reset=True, p_mixed=0.0):
     """Manual-mode step list for a program: input writes, clock level changes (alone / coincident), reset lines."""
     doms = prog["domains"]
     sigs = prog["signals"]
@@ -49,6 +49,13 @@ def gen_steps(prog, wl, fl, nsteps, *, p_reset=0.1, p_coincide=0.3, ctl_bias=0.5
         for ln in which:
             levels[ln] ^= 1
             ch[ln] = levels[ln]
+        if p_mixed and fl.random() < p_mixed:
+            # an asynchronous reset asserted in the very instant of clock edges
+            cands = [d["name"] + ".rst" for d in doms if d["async_reset"] and not d["reset_less"] and not levels[d["name"] + ".rst"]]
+            if cands:
+                ln = fl.choice(cands)
+                levels[ln] = 1
+                ch[ln] = 1
         steps.append({"k": "ev", "l": ch})
     return steps
 
@@ -137,9 +144,14 @@ class ProgRun:
                     for ln, lvl in st["l"].items():
                         if ln in lv and lv[ln] != lvl:
                             changes[ln] = lvl
-                    # a reset change never shares a step with a clock edge (the generator keeps them apart; shrinking may not)
+                    # a reset change shares a step with clock changes only when it is the *assertion* of an *asynchronous* reset
+                    # (both orders of the two events then agree); anything else is ambiguous and is taken apart
                     if any(k.endswith(".rst") for k in changes) and any(k.endswith(".clk") for k in changes):
-                        changes = {k: v for k, v in changes.items() if k.endswith(".rst")}
+                        ok = all((not k.endswith(".rst")) or (v == 1 and ref.doms[k[:-4]]["async_reset"]) for k, v in changes.items())
+                        if ok:
+                            P["async_reset_with_clock_edge"] = P.get("async_reset_with_clock_edge", 0) + 1
+                        else:
+                            changes = {k: v for k, v in changes.items() if k.endswith(".rst")}
                     for ln, lvl in changes.items():
                         lv[ln] = lvl
                         dom, kind = ln.rsplit(".", 1)
@@ -163,11 +175,10 @@ class ProgRun:
                         except BaseException as e:
                             if on_exception is None or not on_exception(drv, ref, idx, st, active, rst_changes, e):
                                 raise
-                    for dom, lvl in rst_changes.items():
-                        ref.set_reset(dom, lvl)
+                    if rst_changes or active:
+                        ref.instant(active, rst_changes)
                     if active:
                         sets_since = 0
-                        ref.edge(active)
                         if any(ref.rst[a] for a in active):
                             P["edge_under_reset"] = P.get("edge_under_reset", 0) + 1
                 if st["k"] == "ev":
